@@ -175,7 +175,7 @@ def parts(ctx):
     return [Part("wide%02d" % i, compiles, (i, 45 if q else 2000, "wide")) for i in range(12)] + [Part("npu%02d" % i, compiles, (i, 45 if q else 1000, "npu")) for i in range(4)] + [
         Part("reshapes%02d" % i, compiles, (i, 40 if q else 1500, "reshapes")) for i in range(4)] + [Part("corners%02d" % i, compiles, (i, 50 if q else 2000, "corners")) for i in range(4)] + [
         Part("tall%02d" % i, compiles, (i, 30 if q else 800, "tall")) for i in range(2)] + [Part("symweights%02d" % i, compiles, (i, 30 if q else 800, "symweights")) for i in range(1)] + [
-        Part("atheris%02d" % i, atheris_part, (i, 150 if q else 6000, [["corners"], ["wide", "npu"], ["corners", "tall"], ["cpumix", "reshapes"]][i % 4])) for i in range(2 if q else 16)] + [Part("fanout%02d" % i, compiles, (i, 40 if q else 1500, "fanout")) for i in range(2)] + [
+        Part("atheris%02d" % i, atheris_part, (i, 150 if q else 6000, [["corners"], ["wide", "npu"], ["corners", "tall"], ["cpumix", "reshapes"], ["rnn", "fanout"]][i % 5])) for i in range(2 if q else 16)] + [Part("fanout%02d" % i, compiles, (i, 40 if q else 1500, "fanout")) for i in range(2)] + [
         Part("rnn%02d" % i, compiles, (i, 30 if q else 1200, "rnn")) for i in range(2)]
 
 
